@@ -17,6 +17,43 @@ Qed.
 Lemma reach_sane cfg st : reach cfg st -> sane cfg st.
 Proof. intros H. destruct H; [apply sane_init | assumption]. Qed.
 
+(* ---- what the link invariant says about completed calls and handler inputs ---- *)
+Lemma link_result_own cfg s es eo ws wo : link2 cfg s es eo ws wo ->
+  forall c stt b mt, In (c, RReply stt b mt) (e_done es) ->
+  In c (e_issued es) /\
+  RReply stt b mt = res_of (reply_msg (c_seq c) (c_codec c)
+                             (cf_handler cfg (other s) (c_method c) (c_args c) (c_meta c))) /\
+  (st_code stt = 0%Z ->
+     b = fst (fst (cf_handler cfg (other s) (c_method c) (c_args c) (c_meta c))) /\
+     mt = snd (fst (cf_handler cfg (other s) (c_method c) (c_args c) (c_meta c)))).
+Proof.
+  intros Hl c stt b mt Hin.
+  destruct Hl as (_ & _ & _ & Hd & _). destruct (Hd _ Hin) as [A B]. cbn [fst snd] in A, B.
+  split; [exact A|]. split; [exact B|]. intros Hok.
+  destruct (cf_handler cfg (other s) (c_method c) (c_args c) (c_meta c)) as [[rb rm] so].
+  cbn [fst snd]. unfold reply_msg, res_of in B. destruct (status_ok so) eqn:E; cbn in B.
+  - inversion B; subst. auto.
+  - inversion B; subst. unfold status_ok in E. apply Z.eqb_neq in E. contradiction.
+Qed.
+
+Lemma link_no_foreign cfg s es eo ws wo : link2 cfg s es eo ws wo ->
+  (forall c stt b mt, In (c, RReply stt b mt) (e_done es) -> st_code stt = 0%Z ->
+     In c (e_issued es) /\
+     b = fst (fst (cf_handler cfg (other s) (c_method c) (c_args c) (c_meta c))) /\
+     mt = snd (fst (cf_handler cfg (other s) (c_method c) (c_args c) (c_meta c)))) /\
+  (forall h, In h (e_seen es) ->
+     if h_push h then In (h_method h, h_body h, h_meta h) (e_sent eo)
+     else exists c, In c (e_issued eo) /\
+                    h_method h = c_method c /\ h_body h = c_args c /\ h_meta h = c_meta c).
+Proof.
+  intros Hl. split.
+  - intros c stt b mt Hin Hok.
+    destruct (link_result_own cfg s es eo ws wo Hl c stt b mt Hin) as (A & _ & B).
+    destruct (B Hok). auto.
+  - intros h Hin. destruct Hl as (_ & _ & _ & _ & Hs & _). pose proof (Hs h Hin) as H.
+    unfold seen_ok in H. destruct (h_push h); [exact H|]. destruct H as (c & A & ->). exists c. auto.
+Qed.
+
 Section Guarded.
   Variable cfg : config.
   Hypothesis Hlock : cf_lock cfg = true.
@@ -190,3 +227,57 @@ Section Guarded.
     exact (wf_frame_raw cfg _ (Wf _ Hin)).
   Qed.
 End Guarded.
+
+(* ================================================================ no lock, one Write per frame *)
+Lemma reach1_sane cfg st : reach1 cfg st -> sane cfg st.
+Proof. intros H. destruct H; [apply sane_init | assumption]. Qed.
+
+Section SingleWrite.
+  Variable cfg : config.
+  Hypothesis Hnolock : cf_lock cfg = false.
+  Hypothesis Hinv : forall g, In g (cf_reg cfg) -> inverts g.
+
+  Lemma Inv1_init : Inv1 cfg init.
+  Proof.
+    exists [], [].
+    assert (W : wire1 cfg ep0 [] []) by (repeat split; constructor).
+    assert (L : forall s, link2 cfg s ep0 ep0 [] []).
+    { intros s. refine (conj _ (conj _ (conj _ (conj _ (conj _ eq_refl))))).
+      - intros q. cbn. lia.
+      - intros q c H. discriminate.
+      - intros x [].
+      - intros cr [].
+      - intros h []. }
+    exact (conj (conj W (L SA)) (conj W (L SB))).
+  Qed.
+
+  Theorem reach1_Inv1 st : reach1 cfg st -> Inv1 cfg st.
+  Proof.
+    induction 1 as [|st ev st' Hr IH Hs Hstep Hsane'].
+    - apply Inv1_init.
+    - exact (pres1_step cfg Hnolock Hinv st ev st' Hs (reach1_sane _ _ Hr) IH Hstep).
+  Qed.
+
+  (* the queue is always whole frames: a partial frame is never on the wire *)
+  Theorem single_write_whole_lemma st : reach1 cfg st -> forall s,
+    exists whole, Forall (Wire.wf_frame cfg) whole /\ queue st s = concat (map fr_bytes whole).
+  Proof.
+    intros Hr s. destruct (InvW_at cfg (wire1 cfg) st s (reach1_Inv1 st Hr)) as (ws & wo & ((Hw & _) & _)).
+    destruct Hw as (Wf & Wq & _). exists ws. auto.
+  Qed.
+
+  Theorem single_write_no_foreign_lemma st : reach1 cfg st -> forall s,
+    e_broken (ep_of st s) = false /\
+    (forall c stt b mt, In (c, RReply stt b mt) (e_done (ep_of st s)) -> st_code stt = 0%Z ->
+       In c (e_issued (ep_of st s)) /\
+       b = fst (fst (cf_handler cfg (other s) (c_method c) (c_args c) (c_meta c))) /\
+       mt = snd (fst (cf_handler cfg (other s) (c_method c) (c_args c) (c_meta c)))) /\
+    (forall h, In h (e_seen (ep_of st s)) ->
+       if h_push h then In (h_method h, h_body h, h_meta h) (e_sent (ep_of st (other s)))
+       else exists c, In c (e_issued (ep_of st (other s))) /\
+                      h_method h = c_method c /\ h_body h = c_args c /\ h_meta h = c_meta c).
+  Proof.
+    intros Hr s. destruct (InvW_at cfg (wire1 cfg) st s (reach1_Inv1 st Hr)) as (ws & wo & ((_ & Hl) & _)).
+    split; [apply Hl|]. exact (link_no_foreign cfg s _ _ ws wo Hl).
+  Qed.
+End SingleWrite.
